@@ -52,7 +52,7 @@ def FullStatement_tr_invariance_all26 (T : Tr) (s : SchemaD) (fx : Fixes) (d : D
 
 /-- **perm_selections / perm_arguments / alpha_fragments for ALL 26 RULES**, each rule alone, the overlap rule being the
     memoised one /repo runs. The hypotheses of `tr_invariance_25_partial` (unique fragment names, non-empty before and
-    after the renaming) plus those of the overlap rule (see the header). -/
+    after the renaming) plus those of the overlap rule (see the header). [ALONE-RUN statement, rule by rule: each rule visitor in a chain of its own; for the verdict of the chain `validate_ast` runs see `Props/C06_chain.lean: chainM_six_transformations`.] -/
 theorem tr_invariance_all26 (T : Tr) (hinj : ∀ a b, T.frag a = T.frag b → a = b) (s : SchemaD) (fx : Fixes)
     (hfx : HeadVars fx) (d : Doc) (hnd : Spec.uniqueFragmentNames d) (hne : NamesNonEmpty d)
     (hne' : NamesNonEmpty (T.doc d)) (hu : Spec.uniqueArgumentNames d) (hpa : Spec.ParentsAgree s d) (hw : WfIds d) :
@@ -91,7 +91,7 @@ theorem alpha_fragments_all26 (ρ : String → String) (hρ : ∀ a b, ρ a = ρ
     for `T.doc d` iff it holds for `d`. No hypothesis about argument names, fragment names being unique or parent types:
     they are clauses of other rules of the same chain, available on whichever side accepts. What remains is what the
     headline theorems assume (`DocOkM`: `wfIdsB`, `noMetaSubsB`, non-empty names; `SchemaOutputs`) and that the
-    renaming is injective and produces no empty name. -/
+    renaming is injective and produces no empty name. [About the CONJUNCTION OF THE 26 ALONE RUNS (`SilentM`); the same for the chain itself, `SkipNode` handling included: `Props/C06_chain.lean: chainM_six_transformations`, through `chainM_silent_iff_alone`.] -/
 theorem tr_verdict_invariance_memo (T : Tr) (hinj : ∀ a b, T.frag a = T.frag b → a = b) (s : SchemaD) (fx : Fixes)
     (hfx : HeadVars fx) (hs : SchemaOutputs s) (d : Doc) (hd : DocOkM s d) (hne' : NamesNonEmpty (T.doc d)) :
     (∀ r ∈ Rule.all, SilentM s fx r (T.doc d)) ↔ (∀ r ∈ Rule.all, SilentM s fx r d) := by
@@ -161,7 +161,7 @@ def FullStatement_perm_definitions_all26 (s : SchemaD) (fx : Fixes) (d d' : Doc)
   ∀ r ∈ Rule.all, (SilentM s fx r d ↔ SilentM s fx r d')
 
 /-- **perm_definitions for ALL 26 RULES** (`perm_definitions_all25_partial` + `perm_definitions_overlap_memo`): the
-    hypotheses of the former (each needed: "the last definition wins") and the side conditions of the overlap theorem -/
+    hypotheses of the former (each needed: "the last definition wins") and the side conditions of the overlap theorem [ALONE-RUN statement, rule by rule: each rule visitor in a chain of its own; for the verdict of the chain `validate_ast` runs see `Props/C06_chain.lean: chainM_six_transformations`.] -/
 theorem perm_definitions_all26 (s : SchemaD) (fx : Fixes) (hfx : HeadVars fx) {d d' : Doc}
     (h : d.defs.Perm d'.defs) (hnd : Spec.uniqueFragmentNames d) (hne : NamesNonEmpty d) (hk : Spec.uniqueOpKeys d)
     (hv : Spec.uniqueVariableNames d) (hpa : Spec.ParentsAgree s d) (hw : WfIds d) :
